@@ -254,6 +254,7 @@ func runC01(c *Check) {
 	c.MinInstances("C01-R5", 4)
 	c.MinInstances("C01-R7", 2)
 	c.MinInstances("C01-R3", 9)
+	c.MinInstances("C01-R8", 2)
 
 	ruleValidatorFacts(c, p)
 	ruleEmptyHashConst(c, p)
@@ -290,6 +291,8 @@ func ruleBuilder(c *Check, p *Prog, g *Graph, step *ssa.Function) {
 		return
 	}
 	h, d := hdrs[0], datas[0]
+	c.Doc("C01-R8", "VP: chain links (previous header hash, previous data hash) are nil only when the new height is not above the initial height, on every path including the re-use of a stored block.")
+	ruleChainLinks(c, p, g, step, h.al, h.ctx)
 	bfn := fnName(h.ctx.Fn)
 	pos := p.InstrPos(h.al)
 	stores := litStores(h.al)
@@ -717,4 +720,177 @@ func ruleNextState(c *Check, p *Prog) {
 		c.Bad(rule, "applier ⟂ rawTxs[i]←data.Txs[i]", fnName(ap), p.Pos(ap.Pos()), "the transactions handed to the executor are not an index-by-index copy of the block's", nil)
 	}
 	c.MinInstances(rule, 8)
+}
+
+// resolveParam follows a parameter up the inlining contexts to the caller's value.
+func resolveParam(v ssa.Value, ctx *Ctx) (ssa.Value, *Ctx) {
+	for {
+		prm, ok := v.(*ssa.Parameter)
+		if !ok || ctx == nil || ctx.Site == nil || ctx.Fn != prm.Parent() {
+			return v, ctx
+		}
+		idx := -1
+		for i, q := range prm.Parent().Params {
+			if q == prm {
+				idx = i
+			}
+		}
+		args := siteArgs(ctx.Site, ctx.Fn)
+		if idx < 0 || idx >= len(args) {
+			return v, ctx
+		}
+		v, ctx = args[idx], ctx.Parent
+	}
+}
+
+// zeroEdgesOnlyUnder: v is a (possibly nested) phi; every incoming edge whose value is a
+// nil/zero constant comes from a block dominated by the side of an If selected by guard.
+// Returns the position of an offending edge's predecessor block ("" if none) and whether any
+// non-zero alternative exists.
+func zeroEdgesOnlyUnder(v ssa.Value, guard func(ifi *ssa.If) (zeroSide int, ok bool), depth int) (bad *ssa.BasicBlock, hasValue bool) {
+	phi, ok := v.(*ssa.Phi)
+	if !ok || depth > 4 {
+		if k, isK := v.(*ssa.Const); isK && k.Value == nil {
+			return nil, false
+		}
+		return nil, true
+	}
+	blk := phi.Block()
+	for i, e := range phi.Edges {
+		pred := blk.Preds[i]
+		if k, isK := e.(*ssa.Const); isK && (k.Value == nil || k.Value.String() == "0") {
+			okGuard := false
+			for d := pred; d != nil; d = d.Idom() {
+				// is pred dominated by the zero side of a guard If?
+				for x := d.Idom(); x != nil; x = x.Idom() {
+					ifi, isIf := x.Instrs[len(x.Instrs)-1].(*ssa.If)
+					if !isIf {
+						continue
+					}
+					side, isG := guard(ifi)
+					if !isG {
+						continue
+					}
+					s := x.Succs[side]
+					if len(s.Preds) == 1 && s.Dominates(pred) {
+						okGuard = true
+					}
+				}
+				break
+			}
+			if !okGuard {
+				return pred, hasValue
+			}
+			continue
+		}
+		if inner, isPhi := e.(*ssa.Phi); isPhi {
+			b2, hv := zeroEdgesOnlyUnder(inner, guard, depth+1)
+			hasValue = hasValue || hv
+			if b2 != nil {
+				return b2, hasValue
+			}
+			continue
+		}
+		hasValue = true
+	}
+	return nil, hasValue
+}
+
+// ruleChainLinks (C01-R8): the previous-header hash put into the new header and the
+// previous-data hash put into the committed data's metadata are nil only on the path where the
+// new height is not above the initial height; on every other path — including the one that
+// re-uses a block stored before a crash — they are the hashes of the stored predecessor.
+func ruleChainLinks(c *Check, p *Prog, g *Graph, step *ssa.Function, hdrLit *ssa.Alloc, hdrCtx *Ctx) {
+	rule := "C01-R8"
+	fn := fnName(step)
+	// the guard: newHeight <= InitialHeight (zero side = true successor), or its negation
+	guard := func(ifi *ssa.If) (int, bool) {
+		t := TermOf(ifi.Cond, &Ctx{Fn: ifi.Parent()})
+		t2, pol := normFact(t, true)
+		if t2.Op != "bin" {
+			return 0, false
+		}
+		a, b := t2.Args[0].String(), t2.Args[1].String()
+		isNew := func(s string) bool { return strings.Contains(s, "pkg/store.Store).Height(") && strings.Contains(s, "+ 1") }
+		isInit := func(s string) bool { return strings.HasSuffix(s, ".InitialHeight") }
+		le := false
+		switch {
+		case isNew(a) && isInit(b) && (t2.Name == "<=" || t2.Name == "<"):
+			le = true
+		case isInit(a) && isNew(b) && (t2.Name == ">=" || t2.Name == ">"):
+			le = true
+		case isNew(a) && isInit(b) && (t2.Name == ">" || t2.Name == ">="):
+			le = false
+			pol = !pol
+			le = true
+		default:
+			return 0, false
+		}
+		_ = le
+		if pol {
+			return 0, true
+		}
+		return 1, true
+	}
+	check := func(name string, v ssa.Value, ctx *Ctx, pos string) {
+		v, _ = resolveParam(v, ctx)
+		// look through a local variable that is kept in memory
+		if u, ok := v.(*ssa.UnOp); ok {
+			if al, ok := u.X.(*ssa.Alloc); ok {
+				var stores []ssa.Value
+				for _, r := range *al.Referrers() {
+					if st, ok := r.(*ssa.Store); ok && st.Addr == ssa.Value(al) {
+						stores = append(stores, st.Val)
+					}
+				}
+				if len(stores) == 1 {
+					v = stores[0]
+				}
+			}
+		}
+		bad, has := zeroEdgesOnlyUnder(v, guard, 0)
+		t := TermOf(v, &Ctx{Fn: step})
+		fromPrev := strings.Contains(t.String(), "GetBlockData(") && (strings.Contains(t.String(), ").Hash("))
+		inst := fnShort(step) + " ⟂ " + name
+		switch {
+		case bad != nil:
+			c.Bad(rule, inst, fn, p.Pos(bad.Instrs[0].Pos()), name+" can be nil on a path where the new height is above the initial height (e.g. the path that re-uses a block stored before a crash): the committed block does not link to its predecessor: "+trunc(t.String(), 120), nil)
+		case !has || !fromPrev:
+			c.Bad(rule, inst, fn, pos, name+" does not derive from the hash of the block stored at the current height: "+trunc(t.String(), 120), nil)
+		default:
+			c.OK(rule, inst, fn, pos, name+" is nil only for the first block and otherwise the hash of the stored predecessor", true)
+		}
+	}
+	// LastHeaderHash of the new header
+	if vs := litStores(hdrLit)["Header.LastHeaderHash"]; len(vs) == 1 {
+		check("LastHeaderHash", vs[0], hdrCtx, p.InstrPos(hdrLit))
+	} else {
+		c.Unk(rule, fnShort(step)+" ⟂ LastHeaderHash", fn, "", "anchor lost: LastHeaderHash of the built header")
+	}
+	// LastDataHash of the committed data's metadata: the Metadata literal stored into data.Metadata in the step
+	found := false
+	for _, n := range g.Nodes {
+		if !g.Live()[n] || n.Ctx.Depth != 0 {
+			continue
+		}
+		st, ok := n.In.(*ssa.Store)
+		if !ok {
+			continue
+		}
+		at := TermOf(st.Addr, n.Ctx)
+		if at.Op != "field" || at.Name != "Metadata" {
+			continue
+		}
+		al, ok := st.Val.(*ssa.Alloc)
+		if !ok {
+			continue
+		}
+		if vs := litStores(al)["LastDataHash"]; len(vs) == 1 {
+			found = true
+			check("Metadata.LastDataHash", vs[0], n.Ctx, p.InstrPos(st))
+		}
+	}
+	if !found {
+		c.Unk(rule, fnShort(step)+" ⟂ Metadata.LastDataHash", fn, "", "anchor lost: the metadata attached to the committed data")
+	}
 }
